@@ -129,6 +129,11 @@ FAIL_EXPRS = {
     'string-index-negative': lambda: ('Call', '__getitem__', [('Val', 'abc'), ('Un', '-', ('Val', typed.D('4')))], 'idx'),
     'pop-empty': lambda: ('Call', 'pop', [('Call', 'list', [], 'lit')], 'call'),
     'pop-empty-index': lambda: ('Call', 'pop', [('Call', 'list', [], 'lit'), ('Val', typed.D('0'))], 'dot'),
+    'lambda-arity-map': lambda: ('Call', 'map', [('Call', 'list', [('Val', typed.D('1')), ('Val', typed.D('2'))], 'lit'),
+                                          ('Lambda', [('Name', 'v9'), ('Name', 'i9')], ('Bin', '+', ('Name', 'v9'), ('Name', 'i9')), 'paren')], 'call'),
+    'lambda-arity-filter': lambda: ('Call', 'filter', [('Name', 'xs'), ('Lambda', [('Name', 'v9'), ('Name', 'i9')], ('Name', 'i9'), 'paren')], 'pipe'),
+    'lambda-arity-sorted': lambda: ('Call', 'sorted', [('Call', 'list', [('Val', typed.D('2')), ('Val', typed.D('1'))], 'lit'),
+                                                ('Lambda', [('Name', 'a9'), ('Name', 'b9')], ('Name', 'b9'), 'paren')], 'call'),
     'push-at-cap': lambda: ('Call', 'push', [('Name', 'big'), ('Val', typed.D('1'))], 'call'),
     'insert-at-cap': lambda: ('Call', 'insert', [('Name', 'big'), ('Val', typed.D('0')), ('Val', typed.D('1'))], 'dot'),
 }
@@ -273,7 +278,7 @@ def run_case(case):
 
 
 # ------------------------------------------------------------------------------------------------ generators
-ATOMS = ['a', 'b1', 'r', 'not', 'in', 'and', 'True', 'del', 'for', 'if', 'else', 'é', '²', '%a b%', '%', '"s"', "'t'", 'r"\\d"', '"', "'",
+ATOMS = ['&', '&&', 'a &', 'a', 'b1', 'r', 'not', 'in', 'and', 'True', 'del', 'for', 'if', 'else', 'é', '²', '%a b%', '%', '"s"', "'t'", 'r"\\d"', '"', "'",
          '"abc', 'r"', '"\\', '\\', '1', '12.5', '1.', '.5', '+', '-', '*', '**', '/', '=', '==', '!=', '!', '<', '>=', '=>', '+=', '|', '.',
          ',', ':', '(', ')', '[', ']', '{', '}', ';', '\n', '\r\n', '\r', ' ', '\t', '#c', '# x\n', '$', '?', '@', '\x0c', '\xa0', '\x00',
          'x = ', 'f(', 'x[', '{"k": ', 'v => ', 'x += ', 'x.push(', ' if ', ' else ', 'while', 'def ', 'u /= 2', 'q | pop', '[][0]', '{}["k"]']
